@@ -322,3 +322,58 @@ impl crate::drive::Driveable for GListEng {
         })
     }
 }
+
+// ---------------------------------------------------------------------------
+// Supplementary depth probe.  NOT bound to the TLA+ specification: after k inserts into one gap an identifier holds a
+// rational with denominator 2^k, and TLC's 32-bit integers cannot follow past k = 30 (DESIGN 9).  One replica, two
+// appends, then `n` inserts into the same gap and `n` deletes out of it; after every step the replica and the op go
+// through serde_json (the persisted twin of C19) and both are compared with a Vec (the sequential model of C13).
+// ---------------------------------------------------------------------------
+pub fn deep_gap_probe(n: usize) -> Value {
+    use crdts::CmRDT;
+    let r = crate::core::catch(|| {
+        let mut live: List<u8, u8> = List::new();
+        let mut twin: List<u8, u8> = List::new();
+        let mut model: Vec<u8> = vec![];
+        let total = 2 + 2 * n;
+        for k in 0..total {
+            let op = if k < 2 {
+                model.push(k as u8 + 1);
+                live.append(k as u8 + 1, 1u8)
+            } else if k < 2 + n {
+                let v = (k % 200) as u8 + 3;
+                model.insert(1, v);
+                live.insert_index(1, v, 1u8)
+            } else {
+                model.remove(1);
+                match live.delete_index(1, 1u8) {
+                    Some(op) => op,
+                    None => return json!({"ok": false, "step": k + 1, "what": "delete_index(1) returned None on a list of more than two elements", "props": ["C13"]}),
+                }
+            };
+            let op2: crdts::list::Op<u8, u8> = match serde_json::to_string(&op).map_err(|e| e.to_string()).and_then(|t| serde_json::from_str(&t).map_err(|e| e.to_string())) {
+                Ok(o) => o,
+                Err(e) => return json!({"ok": false, "step": k + 1, "what": format!("the op does not survive serde_json: {}", e), "props": ["C19"]}),
+            };
+            live.apply(op);
+            twin.apply(op2);
+            twin = match serde_json::to_string(&twin).map_err(|e| e.to_string()).and_then(|t| serde_json::from_str(&t).map_err(|e| e.to_string())) {
+                Ok(t) => t,
+                Err(e) => return json!({"ok": false, "step": k + 1, "what": format!("the replica does not survive serde_json: {}", e), "props": ["C19"]}),
+            };
+            let lr: Vec<u8> = live.read::<Vec<&u8>>().into_iter().cloned().collect();
+            let tr: Vec<u8> = twin.read::<Vec<&u8>>().into_iter().cloned().collect();
+            if lr != model {
+                return json!({"ok": false, "step": k + 1, "what": "the edit did not land where the sequential-list model puts it", "real": lr, "model": model, "props": ["C13", "C12"]});
+            }
+            if tr != model || twin != live {
+                return json!({"ok": false, "step": k + 1, "what": "the replica that went through serde_json after every step differs from the one that did not", "real": tr, "model": model, "props": ["C19"]});
+            }
+        }
+        json!({"ok": true, "steps": total})
+    });
+    match r {
+        Ok(v) => v,
+        Err(e) => json!({"ok": false, "step": 0, "what": format!("PANIC {}", e), "props": ["C12", "C13"]}),
+    }
+}
